@@ -4,6 +4,7 @@ table, lookup order, writer/reader agreement; the table lookup as a string funct
 from qv.core import AnalysisBroken
 from qv.esp import Engine, Env, Outcome, TOP, fs
 from qv.lib import QHooks
+from rules import libtab as _lt
 
 
 def g1(E, k, d=None):
@@ -77,6 +78,25 @@ class PrivHooks(QHooks):
             if off + i < len(self.RECORD) and self.RECORD[off + i] == (c & 255):
                 return [Outcome(ret=fs(i))]
         return [Outcome(ret=fs(n))]
+
+    def prim_memchr(self, E, x, args):
+        off = self._off(args[0])
+        c = next(iter(args[1])) if args[1] is not TOP and len(args[1]) == 1 else None
+        n = next(iter(args[2])) if args[2] is not TOP and len(args[2]) == 1 else None
+        if off is None or not isinstance(n, int) or not isinstance(c, int):
+            return [Outcome(ret=TOP)]
+        for i in range(n):
+            if off + i < len(self.RECORD) and self.RECORD[off + i] == (c & 255):
+                return [Outcome(ret=fs(('&', 'NU[%d]' % (off + i))))]
+        return [Outcome(ret=fs(0))]
+
+    def prim_strlen(self, E, x, args):
+        off = self._off(args[0])
+        if off is None or 0 not in self.RECORD[off:]:
+            return [Outcome(ret=TOP)]
+        return [Outcome(ret=fs(self.RECORD[off:].index(0)))]
+
+    prim_str_len = prim_strlen
 
     def prim_nughde_get(self, E, x, args):
         return [Outcome(ret=TOP)]
@@ -555,6 +575,115 @@ def cdb_seek_sites(db, rep):
 
 
 
+class UserextHooks(_lt.SAConc, _lt.Conc):
+    """qmail-getpw userext() over a concrete local part and a scripted password database"""
+    def __init__(self, users, homes, errs):
+        _lt.Conc.__init__(self, 'userext')
+        self.users, self.homes, self.errs = users, homes, errs     # name -> uid; dir -> owner uid or ('err', errno); name -> errno set by getpwnam
+        self.lookups = []
+        self.exits = []
+        self.over = None
+
+    def prim_getpwnam(self, E, x, args):
+        name = self.cstring(E, _lt._one(args[0]))
+        self.lookups.append(name)
+        if name in self.errs:
+            return [Outcome(ret=fs(0), sets={'$errno': fs(self.errs[name])})]
+        if name in self.users:
+            k = sorted(self.users).index(name)
+            sets = {'PW%d.pw_uid' % k: fs(self.users[name]), 'PW%d.pw_dir' % k: fs(('&', 'DIR%d[0]' % k))}
+            sets.update(_lt.conc_string_cells('DIR%d' % k, b'/home/' + name))
+            return [Outcome(ret=fs(('&', 'PW%d' % k)), sets=sets)]
+        return [Outcome(ret=fs(0))]
+
+    def prim_stat(self, E, x, args):
+        d = self.cstring(E, _lt._one(args[0]))
+        who = self.homes.get(d)
+        st = _lt._one(args[1])
+        if isinstance(who, int) and isinstance(st, tuple):
+            return [Outcome(ret=fs(0), sets={st[1] + '.st_uid': fs(who)})]
+        return [Outcome(ret=fs(-1), sets={'$errno': fs(who[1] if isinstance(who, tuple) else 2)})]
+
+    def prim_error_temp(self, E, x, args):
+        v = _lt._one(args[0])
+        return [Outcome(ret=fs(0 if v in (2, 20, 13, 1) else 1))]       # ENOENT, ENOTDIR, EACCES, EPERM are permanent
+
+    def prim__exit(self, E, x, args):
+        self.exits.append(_lt._one(args[0]))
+        return 'noreturn'
+
+    def on_assign(self, E, x, path, val):
+        import re as _re
+        m_ = _re.match(r'^userext(?:@\w+)?::L:\w+(?:#\d+)?\[(-?\d+)\]$', path or '')
+        if m_ and not (0 <= int(m_.group(1)) < self.size) and self.over is None:
+            self.over = int(m_.group(1))
+
+
+def userext_sites(db, rep, qlx):
+    prog = db.program('qmail-getpw')
+    ue = prog.fn('userext', 'qmail-getpw.c')
+    size = db.unit('qmail-getpw.c').macro_int('GETPW_USERLEN')
+    txtbsy = 26
+    bad = None
+    n = 0
+    long_ = b'u' * 40
+    cases = [
+        # (local part, users, homes, getpwnam errors) -> (result, names looked up, extension offset / exit code)
+        (b'Alice-Ext', {b'alice': 7}, {b'/home/alice': 7}, {}, (1, [b'alice-ext', b'alice'], 6)),
+        (b'alice-ext', {b'alice-ext': 7, b'alice': 8}, {b'/home/alice-ext': 7, b'/home/alice': 8}, {}, (1, [b'alice-ext'], 9)),
+        (b'alice-a-b', {b'alice': 7}, {b'/home/alice': 7}, {}, (1, [b'alice-a-b', b'alice-a', b'alice'], 6)),
+        (b'alice', {}, {}, {}, (0, [b'alice', b''], None)),
+        (b'root-x', {b'root': 0}, {b'/home/root': 0}, {}, (0, [b'root-x', b'root', b''], None)),
+        (b'bob', {b'bob': 9}, {b'/home/bob': 10}, {}, (0, [b'bob', b''], None)),
+        (b'bob', {b'bob': 9}, {}, {}, (0, [b'bob', b''], None)),
+        (b'bob', {b'bob': 9}, {b'/home/bob': ('err', 5)}, {}, ('exit', [b'bob'], qlx['QLX_NFS'])),
+        (b'bob', {}, {}, {b'bob': txtbsy}, ('exit', [b'bob'], qlx['QLX_SYS'])),
+        (long_, {}, {}, {}, (0, [b''], None)),
+        (b'u' * (size - 1), {b'u' * (size - 1): 5}, {b'/home/' + b'u' * (size - 1): 5}, {}, (1, [b'u' * (size - 1)], size - 1)),
+        (b'u' * size, {}, {}, {}, (0, [b''], None)),
+        (b'u' * (size + 3) + b'-x', {}, {}, {}, (0, [b''], None)),
+        (b'ab-' + b'u' * size, {b'ab': 5}, {b'/home/ab': 5}, {}, (1, [b'ab'], 3)),
+    ]
+    for local, users, homes, errs, want in cases:
+        # reference: candidate names are the prefixes that end at the end or before a break character and fit the buffer, longest first, in lower case
+        names, res = [], (0, None)
+        for pos in range(len(local), -1, -1):
+            if pos < size and local[pos:pos + 1] in (b'', b'-'):
+                nm = local[:pos].lower()
+                names.append(nm)
+                if nm in errs:
+                    res = ('exit', qlx['QLX_SYS'])
+                    break
+                if users.get(nm):
+                    who = homes.get(b'/home/' + nm)
+                    if isinstance(who, tuple):
+                        res = ('exit', qlx['QLX_NFS'])
+                        break
+                    if who == users[nm]:
+                        res = (1, pos + (1 if pos < len(local) else 0))
+                        break
+        if (res[0], res[1]) != (want[0], want[2]):
+            raise AnalysisBroken('userext reference table is inconsistent for %r' % local)
+        want = (res[0], names, res[1])
+        H = UserextHooks(users, homes, errs)
+        H.size = size
+        st = {'G:local': fs(('&', 'LOC[0]')), 'G:auto_break[0]': fs(ord('-')), 'G:auto_break[1]': fs(0), 'G:auto_break': fs(('&', 'G:auto_break[0]')), 'G:error_txtbsy': fs(txtbsy)}
+        st.update(_lt.conc_string_cells('LOC', local))
+        _lt._run_conc(db, rep, prog, ue, st, 'userext', H)
+        n += 1
+        if H.ends:
+            store, val, tr = H.ends[0]
+            ext = _lt._one(store.get('G:extension'))
+            got = (_lt.one(val), H.lookups, int(ext[1][4:-1]) if _lt.one(val) == 1 and isinstance(ext, tuple) and ext[1].startswith('LOC[') else None)
+        else:
+            got = ('exit', H.lookups, H.exits[0] if H.exits else None)
+        if (len(H.ends) + len(H.exits) != 1 or got != want or H.over is not None) and bad is None:
+            bad = 'local part %r with users %s and home owners %s%s: result %s after looking up %s%s; documented: %s after looking up %s (longest name first, in lower case; accepted only for an existing non-root user who owns an existing home; temporary errors defer)' % (
+                local[:44], {k.decode(): v for k, v in users.items()}, {k.decode(): v for k, v in homes.items()}, ' (getpwnam errno %s)' % errs if errs else '', got[0::2], [l_[:12] if l_ is not None else None for l_ in got[1]],
+                ' and a store to username[%d]' % H.over if H.over is not None else '', want[0::2], [l_[:12] for l_ in want[1]])
+    return {'userext:accepts-only-existing-nonroot-owner-of-home,longest-name-first,name-inside-its-buffer': (bad is None, 'qmail-getpw.c:userext', bad or '%d scripted password databases' % n, [])}
+
+
 def run(ctx):
     db, rep = ctx.db, ctx.report
     pl = db.program('qmail-lspawn')
@@ -804,41 +933,12 @@ def run(ctx):
 
     # ---------------------------------------------------------------- 5. qmail-getpw
     r5 = rep.rule('C11.5-getpw', 'R-GUARD', 'qmail-getpw userext: a user is accepted only if it exists, is not root, its home exists and is owned by it; longest name first; temporary errors defer; name buffer bounded')
-    ue = db.fn('qmail-getpw.c', 'userext')
-    r1s = [x for x in ue.all_x() if x.k == 'ret' and x.args and x.args[0].const == 1]
-    if not r1s:
-        raise AnalysisBroken('userext: return 1 not found')
-    for x in r1s:
-        g = ue.guards(x) or []
-        has_pw = any(branch_zero_test(c, t, lambda v: v.path() == 'G:pw') == 'nonzero' for c, t in g)
-        nonroot = any(branch_zero_test(c, t, lambda v: (v.path() or '').endswith('pw_uid')) == 'nonzero' for c, t in g)
-        st_ok = False
-        for c, t in g:
-            p = _cmp_parts(c)
-            if p is not None and p[0].strip().k == 'call' and p[0].strip().callee == 'stat' and p[1](0) == t and p[1](-1) != t:
-                st_ok = True
-        owner = False
-        for c, t in g:
-            cs = c.strip()
-            if cs.k == 'bin' and cs.op in ('==', '!=') and (t is (cs.op == '==')) and \
-                    {(cs.args[0].path() or '').split('.')[-1], (cs.args[1].path() or '').split('>')[-1]} == {'st_uid', 'pw_uid'}:
-                owner = True
-        r5.check(has_pw and nonroot and st_ok and owner, 'accept-needs-existing-nonroot-user-owning-its-home', x.where, 'pw=%s nonroot=%s stat-ok=%s owner=%s' % (has_pw, nonroot, st_ok, owner))
-    bc = ue.calls('byte_copy')
-    okb = False
-    if bc:
-        from qv.lib import consistent_values
-        cv = consistent_values(ue, bc[0], range(0, 80))
-        okb = any(vals == set(range(0, 32)) for vals in cv.values())
-        size = db.unit('qmail-getpw.c').macro_int('GETPW_USERLEN')
-        okb = okb and size == 32
-    r5.check(okb, 'name-copy-bounded-by-the-buffer', ue.unit + ':userext', 'byte_copy into username[] must be guarded by extension - local < sizeof username')
-    ex = [(c, c.args[0].const) for c in ue.calls('_exit')]
-    r5.check(any(v == qlx['QLX_NFS'] for c, v in ex) and any(v == qlx['QLX_SYS'] for c, v in ex), 'temporary-errors-defer', ue.unit + ':userext', 'userext exit codes: %s' % [v for c, v in ex])
+    for inst_, v_ in sorted(userext_sites(db, rep, qlx).items()):
+        r5.check(v_[0], inst_, v_[1], v_[2], v_[3])
     gm = db.fn('qmail-getpw.c', 'main')
     r5.check(any(x.k == 'ret' and x.args and x.args[0].const == qlx['QLX_NOALIAS'] for x in gm.all_x()) and
              any(c.args[0].path() == 'G:auto_usera' for c in gm.calls('getpwnam')), 'fallback-to-alias-or-QLX_NOALIAS', gm.unit + ':main', '')
-    r5.expect_min(4)
+    r5.expect_min(2)
     # ---------------------------------------------------------------- 6. first duplicate wins (orientation agreement)
     r6 = rep.rule('C11.6-duplicate-order', 'R-SIBLING', 'records reach each hash bucket oldest first: chunk-list order (cdbmake_add), within-chunk traversal and fill direction (cdbmake_split) agree; writer and reader probe forward, so the first source line is the one found')
     for inst, v in sorted(cdb_order_sites(db, rep).items()):
